@@ -386,6 +386,50 @@ func (p *Program) Roles() *Roles {
 		}
 	}
 	r.MutatorPath = cg.reach(r.MutatorRoots, nil)
+	// any other exported operation of Container / WebService that assigns a field the four known operations assign
+	// (a new RemoveAll, ReplaceRoute ...) changes the registration as well
+	regFields := map[*types.Var]bool{}
+	for _, root := range r.MutatorRoots {
+		eachInstr(root, func(i ssa.Instruction) {
+			if st, ok := i.(*ssa.Store); ok {
+				if fa, ok := st.Addr.(*ssa.FieldAddr); ok {
+					if o := ownerOfFieldAddr(fa); (o == "Container" || o == "WebService") && !p.freshBase(fa) {
+						if _, isSlice := fieldOfAddr(fa).Type().Underlying().(*types.Slice); isSlice {
+							regFields[fieldOfAddr(fa)] = true
+						}
+					}
+				}
+			}
+		})
+	}
+	added := false
+	for _, fn := range p.SrcFunc {
+		if fn.Parent() != nil || r.MutatorPath[fn] || r.RequestPath[fn] {
+			continue
+		}
+		o := fn.Object()
+		if o == nil || !o.Exported() {
+			continue
+		}
+		if rt := recvTypeName(fn); rt != "Container" && rt != "WebService" {
+			continue
+		}
+		stores := false
+		eachInstr(fn, func(i ssa.Instruction) {
+			if st, ok := i.(*ssa.Store); ok {
+				if fa, ok := st.Addr.(*ssa.FieldAddr); ok && regFields[fieldOfAddr(fa)] && !p.freshBase(fa) {
+					stores = true
+				}
+			}
+		})
+		if stores {
+			r.MutatorRoots = append(r.MutatorRoots, fn)
+			added = true
+		}
+	}
+	if added {
+		r.MutatorPath = cg.reach(r.MutatorRoots, nil)
+	}
 	p.roles = r
 	return r
 }
